@@ -88,6 +88,19 @@ def fold_cones(ck: Checker, R: str):
     it = Interp(repo, overrides=ov, max_steps=6_000_000)
     m = repo.mod(SUBC)
 
+    # (these are private helpers: the fold knows them by the parameter lists they have on the pinned tree.  Written another
+    # way, the cone extraction is left to the end-to-end fold of minimize_subcircuits, C04.FOLD, which runs it on every cut of
+    # its model circuits.)
+    def params(q):
+        f = m.functions.get(q)
+        return None if f is None else [a.arg for a in f.args.args + f.args.kwonlyargs if a.arg != 'self']
+    known = {'_generate_inputs_tt': ['size'], '_get_subcircuits': ['circuit', 'cuts', 'cut_nodes', 'max_subcircuit_size', 'cut_size'],
+             '_Subcircuit.__init__': ['inputs', 'gates', 'outputs', 'size', 'inputs_tt', 'patterns'], '_Subcircuit.evaluate_truth_table_with_dont_cares': []}
+    other = {q: params(q) for q, want in known.items() if params(q) != want}
+    if other:
+        ck.notes.setdefault('structural_rules_not_applicable', []).append(f'cone-extraction fold: the private helpers {other} are not the ones the fold knows [left to C04.FOLD]')
+        return False
+
     # ---- _generate_inputs_tt
     gen = RepoFunc(it, m, m.func('_generate_inputs_tt'))
     probs = []
